@@ -10,7 +10,7 @@ from pedal.sandbox import commands as S
 def observe(sb):
     return {'raw': sb.raw_output, 'out': list(sb.output), 'inputs': [x for x in S.get_input()],
             'ctxs': [[c.output, list(c.inputs)] for c in sb._context],
-            'raw_cmd': S.get_raw_output(), 'out_cmd': list(S.get_output())}
+            'raw_cmd': S.get_raw_output(), 'out_cmd': list(S.get_output()), 'ctx_ids': [getattr(c, 'context_id', None) for c in sb._context]}
 
 
 def main():
@@ -26,6 +26,7 @@ def main():
         obs = []
         err = None
         for op in case['ops']:
+            ret = None
             try:
                 k = op['op']
                 if k == 'exec':
@@ -37,9 +38,9 @@ def main():
                     elif op['how'] == 'runmain':
                         S.run(**kw)
                     elif op['how'] == 'call':
-                        S.call(op['fn'], **kw)
+                        ret = S.call(op['fn'], **kw)
                     else:
-                        S.evaluate(op['fn'] + '()')
+                        ret = S.evaluate(op['fn'] + '()')
                 elif k == 'clear_output':
                     S.clear_output()
                 elif k == 'set_input':
@@ -49,10 +50,19 @@ def main():
                     S.queue_input(*op['xs'])
                 elif k == 'clear_input':
                     S.clear_input()
+                elif k == 'clear_context':
+                    sb.clear_context()
             except BaseException as e:
                 err = '%s: %s' % (type(e).__name__, str(e)[:200])
                 break
-            obs.append(observe(sb))
+            ob = observe(sb)
+            if op['op'] == 'exec' and op['how'] in ('call', 'evaluate') and hasattr(ret, '_actual_context_id'):
+                try:
+                    found = sb.get_context(ret._actual_context_id)
+                    ob['result_lookup'] = True if (found and found[-1] is sb._context[-1]) else 'get_context(%r) gives %r' % (ret._actual_context_id, found)
+                except Exception as e:
+                    ob['result_lookup'] = 'get_context(%r) raised %s: %s' % (ret._actual_context_id, type(e).__name__, e)
+            obs.append(ob)
         res.append({'obs': obs, 'error': err, 'stdout_restored': sys.stdout is sys.__stdout__})
     json.dump(res, open(sys.argv[1], 'w'))
 
